@@ -18,6 +18,8 @@ func calleeNamed(call *ssa.Call, name string) bool {
 }
 
 func checkC17(c *Ctx) {
+	defer c17BMP(c)
+
 	c.Decided = append(c.Decided,
 		"G-C17-mac: getSafeContents returns bags only on paths where verifyMac returned nil (first try or the empty-password retry); verifyMac compares the stored digest with HMAC-SHA1(key derived from the password, content) in constant time; every caller of getSafeContents returns its error",
 		"G-C17-digest: PKCS#7 verifySignature rejects a message-digest mismatch (hash of the content vs the signed attribute), a missing signer certificate and an unsupported algorithm, and returns CheckSignature over the DER SET of signed attributes (or the content when there are none) with the signer's EncryptedDigest; Verify rejects a message without signers and any failing signer",
@@ -615,5 +617,40 @@ func c17Pad(c *Ctx) {
 			}
 		}
 		c.Check(okLen && okByte, rule, fname(f), "pad length = blocklen - len(data)%blocklen (a whole block when aligned), pad byte = pad length", "", fmt.Sprintf("the pad is not the PKCS#7 one (length formula recognised: %v, pad byte is the length: %v)", okLen, okByte), cl.Pos())
+	}
+}
+
+// c17BMP: PKCS#12 passwords are BMPStrings (UCS-2): a rune outside the BMP has no encoding, and writing only its low 16
+// bits makes distinct passwords collide. bmpString must refuse such a rune: ASSUME utf16.EncodeRune(r) != 0xfffd
+// (the rune needs a surrogate pair); no successful return is reachable.
+func c17BMP(c *Ctx) {
+	rule := "K-C17-kdf"
+	f := c.Fn("pkcs12", "bmpString")
+	if f == nil {
+		c.Undecided(rule, "pkcs12.bmpString", "non-BMP runes are refused", "function not found", token.NoPos)
+		return
+	}
+	ci := newCondIndex(f, allParamNames(f))
+	for _, cs := range ci.conds {
+		dbg("bmpString cond: %s", cs)
+	}
+	spec, _ := defaultResultSpec(f)
+	// from the test on (a rune is being looked at), with the test saying "needs a surrogate pair"
+	var enc *ssa.Call
+	for _, cl := range allCalls(f) {
+		if call, ok := cl.(*ssa.Call); ok && calleeID(&call.Call) == "unicode/utf16.EncodeRune" {
+			enc = call
+		}
+	}
+	if enc != nil {
+		pat := `re:ne\(res0\(call:unicode/utf16\.EncodeRune\(.*\)\),0xfffd\)`
+		r := true
+		ci.withAssumptions([]assumption{{pat, true}}, func() {
+			r, _ = canReachSuccess(enc.Block(), nil, successExits(f, spec), deadEdges(f))
+		})
+		c.Check(!r, rule, fname(f), "non-BMP runes are refused", "", "a password containing a rune outside the Basic Multilingual Plane must be rejected (UCS-2 cannot represent it; truncating it to 16 bits makes different passwords derive the same keys): with the test assumed to say so, a successful return is still reachable", enc.Pos())
+	}
+	if !ci.valueMatches(`re:ne\(res0\(call:unicode/utf16\.EncodeRune\(.*\)\),0xfffd\)`) {
+		c.ViolatedHard(rule, fname(f), "the UCS-2 representability test exists", "bmpString never tests utf16.EncodeRune(r) against 0xfffd: runes outside the BMP are not refused", f.Pos())
 	}
 }
